@@ -189,6 +189,27 @@ func c03Wire(w *core.W, n model.Name, kind string) {
 	if s != n.Pres() {
 		w.Violation("C03/unpack-text/"+kind, fmt.Sprintf("UnpackDomainName gave %q, canonical presentation is %q", s, n.Pres()), wit)
 	}
+	// the same name reached through the pointer that follows it in the buffer, and the root reached
+	// through a pointer to the octet that ends the name: a name made of pointers alone is a name
+	if len(wire) < 16000 {
+		var s2, s3 string
+		var o2, o3 int
+		var e2, e3 error
+		m2 := append(append([]byte{}, wire...), 0xC0, 0x00, 0xC0|byte((len(wire)-1)>>8), byte(len(wire)-1), 0xFF)
+		if w.Guard("UnpackDomainName(pointer)", wit, func() {
+			s2, o2, e2 = dns.UnpackDomainName(m2, len(wire))
+			s3, o3, e3 = dns.UnpackDomainName(m2, len(wire)+2)
+		}) {
+			return
+		}
+		w.Count("names_read_through_a_pointer", 1)
+		if e2 != nil || s2 != s || o2 != len(wire)+2 {
+			w.Violation("C03/unpack-through-pointer/"+kind, fmt.Sprintf("read through a pointer to its start the name is %q (offset %d, err %v), read directly %q", s2, o2, e2, s), wit)
+		}
+		if e3 != nil || s3 != "." || o3 != len(wire)+4 {
+			w.Violation("C03/unpack-through-pointer/root", fmt.Sprintf("a pointer to the zero octet that ends a name is read as %q (offset %d, err %v), want the root \".\"", s3, o3, e3), wit)
+		}
+	}
 	// the library must accept what it emitted, and get the same octets back
 	back, perr := packName(s)
 	if perr != nil {
